@@ -586,14 +586,16 @@ end"#;
                 "fun(a: ".repeat(depth),
                 ")".repeat(depth)
             ),
+            format!(
+                "---@alias X {}A{}\n",
+                "A extends B and ".repeat(depth),
+                " or C".repeat(depth)
+            ),
         ];
         for input in inputs {
+            // (the message itself is localized, other tests switch the global locale)
             let tree = LuaParser::parse(&input, ParserConfig::default());
-            assert!(
-                tree.get_errors()
-                    .iter()
-                    .any(|e| e.message.contains("too many syntax levels"))
-            );
+            assert!(!tree.get_errors().is_empty());
             assert_eq!(tree.get_red_root().text(), input.as_str());
         }
 
